@@ -195,9 +195,10 @@ CHECKS = {
         "parts": [{"gen": "C07", "quick": 256, "thorough": 2560}, {"gen": "C07udp", "quick": 27, "thorough": 270}, {"gen": "C07srv", "quick": 152, "thorough": 1520}],
         "rule": "one run = real client + real server of one cell under a barrage, with the process-wide panic monitor as the oracle: (a) exhaustive short strings to the server's port and to the client's local port - the empty string, every 1-byte string and every 2-byte string whose first byte lies in this plan's block of 16 "
                 "(16 rounds x 16 cells cover all first bytes for every cell), 3- and 4-byte strings over a reduced alphabet, half of them followed by quiet, all by EOF; (b) random and structure-aware strings (56 bytes + CRLF for Trojan, lengths around the salt / header sizes) in 1-3 segments; "
-                "(c) valid handshakes closed at a drawn byte; (d) authenticated but malformed frames from the reference sender (2022: bad address type, truncated address, padding beyond the header, no padding length, empty header, domain length beyond the header, declared length beyond the frame, non-UTF-8 domain; legacy, VMess and Trojan analogues incl. bad command, short header, bad checksum); "
+                "(c) valid handshakes closed at a drawn byte; (d) authenticated but malformed frames from the reference sender (2022: bad address type, truncated address, padding beyond the header, no padding length, empty header, domain length beyond the header, declared length beyond the frame, non-UTF-8 domain; legacy, VMess and Trojan analogues incl. bad command, short header, bad checksum; VMess option masks 0 / 0xff / authenticated length without chunk stream, unknown and None / Zero security values, and after a correct header and first chunk a chunk whose size field - plain, masked or authenticated - is below its padding, below padding + tag, zero, one, equal to the padding or far beyond the stream; 2022 datagrams with raw malformed bodies: padding length beyond the datagram, nothing after the fixed part, address cut short); "
                 "(e) garbage to the local SOCKS5/HTTP port; (f) random, truncated-valid and authenticated-but-malformed datagrams to the server, malformed SOCKS5-UDP datagrams to the client. Afterwards a correct TCP flow and a correct local datagram must still be served and no main() may have returned. evaluations = inputs.",
-        "real": REAL_SYSTEM, "stub": STUB_SYSTEM + ["hostile peers = harness + reference implementation"], "assumptions": ASSUME_SYSTEM + ["every other check runs with the same panic monitor and reports a panic as a violation of its own property", "allocation failure aborts instead of unwinding and is out of scope", "release build with shipping semantics (overflow-checks and debug-assertions off)"],
+        "real": REAL_SYSTEM, "stub": STUB_SYSTEM + ["hostile peers = harness + reference implementation"], "assumptions": ASSUME_SYSTEM + ["every other check runs with the same panic monitor and reports a panic as a violation of its own property", "allocation failure aborts instead of unwinding and is out of scope", "release build with shipping semantics (overflow-checks and debug-assertions off)",
+                                        "generator C07udp: datagram frames inside VMess / Trojan streams under every single cut; generator C07srv: a hostile reference *server* answers the real client - garbage, truncated / bit-flipped / segmented answers, mis-typed, stale and unbound response headers, VMess response headers with empty / short / over-long plaintext, VMess chunks with size fields that are wrong inside, empty and huge writes; datagram replies that are random, truncated, bit-flipped, duplicated, typed as requests, from malformed source addresses, or well authenticated with a malformed body (padding beyond the datagram)"],
     },
     "C09": {
         "level": "exploration",
